@@ -17,7 +17,9 @@ import time
 
 SCRATCH_ROOT = os.environ.get("VERIF_SCRATCH") or ("/dev/shm" if os.path.isdir("/dev/shm") else None)
 
-ASAN_OPTS = "abort_on_error=0:exitcode=99:allocator_may_return_null=1:detect_leaks=%d:malloc_context_size=12"
+# fresh heap blocks are filled with 0xbe (ASan keeps freed blocks in quarantine, so without this a field that is read before it is set
+# would always read as zero here - and as the previous owner's value on a plain build)
+ASAN_OPTS = "abort_on_error=0:exitcode=99:allocator_may_return_null=1:detect_leaks=%d:malloc_context_size=12:max_malloc_fill_size=1048576:malloc_fill_byte=190"
 UBSAN_OPTS = "print_stacktrace=1:exitcode=98"
 
 
